@@ -166,7 +166,7 @@ PROPS = {
         "harness": "c09",
         "custom": _c09.run,
         "profiles": ["debug"],
-        "rule": "one case = one scenario (packaging one-file / two-files / no-concat) x (no previous file / a previous complete container at the destination): the creation child is run once under strace to record its file-system trace (the Lean model must accept it as disciplined AND as an instance of the model's creationTrace for that packaging — the object of c09_modes / c09_creation_crash / c09_creation_error_return) and then re-run from a fresh directory once per fault point: the k-th output syscall (write, pwrite64, writev, copy_file_range, sendfile; per thread) fails with EIO, or the process is killed at its entry; k ranges over every output syscall of the run in the thorough tier and ~16 evenly spread points (incl. first/last) in the quick tier; after each run the destination is classified: absent / previous file byte for byte / complete (opens, expected logical dump, check true); a third family of fault points is byte offsets: with RLIMIT_FSIZE = N no output file may grow beyond N bytes, so the write crossing byte N is SHORT and the next one fails (EFBIG) — with SIGXFSZ killing the process, and with SIGXFSZ ignored (error return); N = every byte offset of the largest output file in the thorough tier (stride so that <= 4000 points, plus the last 139 bytes of every file), ~27-47 offsets (file starts, tails, check blocks, spread) in the quick tier; non-trivial = scenario with at least one fault point",
+        "rule": "one case = one scenario (packaging one-file / two-files / no-concat, and one-file with a content of 5 MiB so that the output exceeds 4 MiB) x (no previous file / a previous complete container at the destination): the creation child is run once under strace to record its file-system trace (the Lean model must accept it as disciplined AND as an instance of the model's creationTrace for that packaging — the object of c09_modes / c09_creation_crash / c09_creation_error_return) and then re-run from a fresh directory once per fault point: the k-th output syscall (write, pwrite64, writev, copy_file_range, sendfile; per thread) fails with EIO, or the process is killed at its entry; error returns are injected at every output syscall of the run in both tiers, process deaths at every one in the thorough tier and at ~16 evenly spread points (incl. first/last) in the quick tier; after a death the creation is run again, undisturbed, in the directory as it was left, and must yield the complete container; after each run the destination is classified: absent / previous file byte for byte / complete (opens, expected logical dump, check true); a third family of fault points is byte offsets: with RLIMIT_FSIZE = N no output file may grow beyond N bytes, so the write crossing byte N is SHORT and the next one fails (EFBIG) — with SIGXFSZ killing the process, and with SIGXFSZ ignored (error return); N = every byte offset of the largest output file in the thorough tier (stride so that <= 4000 points, plus the last 139 bytes of every file), ~27-47 offsets (file starts, tails, check blocks, spread) in the quick tier; non-trivial = scenario with at least one fault point",
         "assumptions": [
             "crash = process termination, not power loss: rename is atomic and nothing is reordered (built into the FS model)",
             "strace fault points are whole output syscalls; failures in the middle of a write (short writes) are produced by the RLIMIT_FSIZE family only, i.e. at one byte offset per run, the same for all files of the run",
